@@ -285,6 +285,8 @@ def body_plan(doc: dict, man: dict, man_ep: dict, op: dict, tok: docs.Tok, rng: 
         v = docs.instance(schema, comps, tok, "min")
         if v is None:
             return None
+    if bt == "data" and isinstance(v, dict):
+        v = {k: val for k, val in v.items() if val is not None and not isinstance(val, dict) and not (isinstance(val, list) and any(isinstance(i, (dict, list)) or i is None for i in val))}
     x["value"] = v
     x["flags"] = tok.take_flags()
     return to_desc(pi, v), x
@@ -332,7 +334,9 @@ def response_plan(doc: dict, man_ep: dict, op: dict, tok: docs.Tok, rng: random.
     try:
         v = docs.instance(schema, comps, tok, rng.choice(["rand", "max", "min"]))
     except (docs.Bottomless, RecursionError):
-        v = None
+        return None, None
+    if v is None and not docs.nullable(schema, comps):
+        return None, None
     x["flags"] = tok.take_flags()
     if base.startswith("text/"):
         v = v if isinstance(v, str) else tok.string()
@@ -363,7 +367,13 @@ def plan_ops(doc: dict, man: dict, args: dict) -> list:
         path, op, item = found
         eff = effective_params(doc, op, item)
         mod = f"api.{ep['tag']}.{ep['module']}"
+        body_doc = resolve_body(doc, op)
+        sup = lambda mt: (lambda b: b in ("application/json", "application/x-www-form-urlencoded", "multipart/form-data", "application/octet-stream") or b.endswith("+json"))(mt.split(";")[0].strip())  # noqa: E731
         acts.append({"a": "endpoint_info", "module": mod, "x": {"path": path, "method": ep["method"], "security": bool(op.get("security")),
+                                                                 "doc_params": sorted([n, l] for (n, l), p in eff.items() if isinstance(p.get("schema"), dict) or "schema" in p),
+                                                                 "doc_media": sorted(mt for mt, m in ((body_doc or {}).get("content") or {}).items() if sup(mt) and isinstance(m, dict) and "schema" in m) if isinstance(body_doc, dict) else [],
+                                                                 "man_media": sorted(b["content_type"] for b in ep["bodies"]),
+                                                                 "doc_statuses": sorted(str(st) for st in (op.get("responses") or {}) if str(st).isdigit()), "man_statuses": sorted(str(r["status"]) for r in ep["responses"]),
                                                                  "params": {loc: [{"name": p["name"], "python_name": p["python_name"], "required": p["required"], "has_default": p["default"] is not None} for p in ep["params"][loc]] for loc in ep["params"]},
                                                                  "n_bodies": len(ep["bodies"])}})
         for ci in range(calls_per_op):
@@ -408,6 +418,8 @@ def plan_ops(doc: dict, man: dict, args: dict) -> list:
                 kwargs["body"], x["body"] = bp
             want = "undocumented" if (ci == 2 or not ep["responses"]) else "documented"
             resp, x["response"] = response_plan(doc, ep, op, tok, rng, want)
+            if resp is None:
+                continue
             raise_flag = bool(ci % 2) if want == "undocumented" else rng.random() < 0.3
             client = {"auth": bool(op.get("security")) or rng.random() < 0.2, "token": f"tok-{tok.next()}", "raise": raise_flag}
             if client["auth"] and rng.random() < 0.3:
